@@ -678,6 +678,7 @@ where
         known_hits: BTreeMap::new(),
     });
     let failed = RefCell::new(false);
+    let first_sig: RefCell<Option<String>> = RefCell::new(None);
     let log_cases = std::env::var("VERIF_LOG_CASE").ok();
     let result = runner.run(strategy, |v| {
         if let Some(p) = &log_cases {
@@ -697,10 +698,13 @@ where
         }
         let r = test(&v);
         if *failed.borrow() {
-            // shrinking phase: no counting
+            // shrinking phase: no counting; a candidate only counts as "still failing" when it
+            // fails in the same way (same signature), so that a counterexample never shrinks
+            // into a different failure - in particular not into a listed known finding
             return match r {
                 Ok(_) => Ok(()),
-                Err(f) => Err(TestCaseError::fail(f.sig)),
+                Err(f) if Some(&f.sig) == first_sig.borrow().as_ref() => Err(TestCaseError::fail(f.sig)),
+                Err(_) => Ok(()),
             };
         }
         match r {
@@ -753,6 +757,7 @@ where
             }
             Err(f) => {
                 *failed.borrow_mut() = true;
+                *first_sig.borrow_mut() = Some(f.sig.clone());
                 let mut st = stats.borrow_mut();
                 st.done_cases += 1;
                 st.evaluations += 1;
@@ -772,8 +777,9 @@ where
                 ),
             };
             let is_harness = fail.sig.starts_with("harness:");
+            let is_known = known_sigs.contains(&fail.sig);
             st.failure = Some((serde_json::to_value(&value).unwrap_or(Value::Null), fail));
-            if !is_harness {
+            if !is_harness && !is_known {
                 request_stop();
             }
         }
